@@ -124,7 +124,7 @@ PROPS = {
                 "later runs (every 4th of them over SCION) sample bit flips, responses correctly re-sealed under the session key but with a longer / shorter / one-bit-different unique identifier, every 16-bit length word set to 0,1,3,4,-4,+4,0xffff,15,16,17, the client's own request reflected as a response, a genuine response to an earlier request replayed, and unmodified replays; "
                 "non-trivial = at least two tampered packets judged; distinct = distinct event-log hash",
         "exhaustive_part": "single-bit flips of one request and one response at pool level 8: 4032 cases, enumerated completely over IP when the batch has at least 32 runs and again over SCION when it has at least 64 (quick tier: 160 runs)",
-        "required_probes": ["genuine-accepted", "request-tamper-rejected", "response-tamper-rejected", "genuine-accepted-after-tampered", "unauthenticated-position", "resealed-other-identifier", "transport:scion", "zero-tail-cut", "genuine-copy-behind-forged-request", "fields-inserted-before-authenticator", "trailing-data-ignored"],
+        "required_probes": ["genuine-accepted", "request-tamper-rejected", "response-tamper-rejected", "genuine-accepted-after-tampered", "unauthenticated-position", "resealed-other-identifier", "transport:scion", "zero-tail-cut", "genuine-copy-behind-forged-request", "fields-inserted-before-authenticator", "trailing-data-ignored", "nonce-lengthened"],
         "components": {"real": ["net/nts DecodePacket, ProcessRequest, ProcessResponse, authenticate", "net/ntske cookies (Decode, Decrypt), Provider", "core/server runIPServer, runSCIONServer (NTS branches)", "core/client IPClient, SCIONClient (NTS branches)", "NTS-KE over real TLS"],
                        "stub": dict(STUBS_COMMON, **{"kernel UDP/TCP": "simnet", "attacker": "scripted re-delivery of captured packets", "SCION border routers": "one relay router", "NTS-KE transport of the SCION client": "TLS on simulated TCP (production wiring: QUIC over SCION, not simulated)"})},
         "assumptions": ["a change is 'accepted' by a listener iff it answers at all (with or without NTS fields), by the client iff the tampered datagram is the one it had read last when it reported an offset",
@@ -140,7 +140,7 @@ PROPS = {
                 "loss bursts of length 1..10 on requests or on responses in 3/4 of the runs (bursts of 7 and more only in 1/5 of those), idle gaps of 1 h..5 d between attempts in 1/3 of the runs "
                 "(server key renewal and retirement, cookies expiring, re-keying); every request and reply on the wire is parsed by the harness's own RFC 8915 field walker and authenticated independently with miscreant; "
                 "non-trivial = at least two successful exchanges; distinct = distinct event-log hash",
-        "required_probes": ["exchange-ok", "exchange-ok:ip", "exchange-ok:scion", "reply-verified", "re-keyed", "pool-restored", "request-at-level-8", "request-at-level-5", "recovered-after-server-restart", "request-at-level-1", "server-busy-while-client-idle"],
+        "required_probes": ["exchange-ok", "exchange-ok:ip", "exchange-ok:scion", "reply-verified", "re-keyed", "pool-restored", "request-at-level-8", "request-at-level-5", "recovered-after-server-restart", "request-at-level-1", "server-busy-while-client-idle", "nts-over-packet-authentication"],
         "components": {"real": ["net/ntske Fetcher (FetchData, StoreCookie), Provider, cookies", "net/nts NewRequestPacket, EncodePacket, DecodePacket, ProcessRequest/Response, NewResponsePacket",
                                 "core/server runIPServer, runSCIONServer (authenticated branches), handleKeyExchangeTLS", "core/client IPClient, SCIONClient", "crypto/tls"],
                        "stub": dict(STUBS_COMMON, **{"kernel UDP/TCP": "simnet", "SCION border routers": "one relay router", "NTS-KE transport of the SCION client": "TLS on simulated TCP (production wiring: QUIC over SCION, not simulated)"})},
@@ -197,7 +197,7 @@ PROPS = {
                 "end-host forwarder on port 30041; SCMP echo and traceroute requests; packets for another L4 port delivered to the service port, to the end-host port, and addressed to the end-host port itself; "
                 "in 2/3 of the runs the router flips bits in transit (MAC, SPI, algorithm, payload, address header, traffic class, anywhere) in 10..60 % of the packets; "
                 "non-trivial = at least two replies judged at the router; distinct = distinct event-log hash",
-        "required_probes": ["ntp-reply-checked", "authenticated-exchange", "client-verified-response", "scmp-reply-checked", "not-forwarded-from-service-port", "forwarded-from-endhost-port", "not-forwarded-to-endhost-port", "measurement-failed", "served-unauthenticated-while-daemon-down", "mixed-address-families", "crafted-ntp-request", "listeners-started-by-the-service", "requests-delivered-to-the-endhost-port", "nts-with-packet-authentication", "authenticator-of-odd-length", "forwarder-stayed-a-forwarder", "forwarder-started-by-the-service", "forged-datagram-in-front-of-the-genuine-one"],
+        "required_probes": ["ntp-reply-checked", "authenticated-exchange", "client-verified-response", "scmp-reply-checked", "not-forwarded-from-service-port", "forwarded-from-endhost-port", "not-forwarded-to-endhost-port", "measurement-failed", "served-unauthenticated-while-daemon-down", "mixed-address-families", "crafted-ntp-request", "listeners-started-by-the-service", "requests-delivered-to-the-endhost-port", "nts-with-packet-authentication", "authenticator-of-odd-length", "forwarder-stayed-a-forwarder", "forwarder-started-by-the-service", "forged-datagram-in-front-of-the-genuine-one", "scmp-request-behind-extension-headers"],
         "components": {"real": ["core/server runSCIONServer (NTP, SCMP, forwarding branches); in a third of the authenticated runs started by core/server StartSCIONServer itself (sixteen listeners, their fetchers connected to the mock daemon)", "a quarter of the runs: NTS on top (net/nts, net/ntske provider, runNTSKEServerTLS, the client's fetcher over crypto/tls)", "core/client SCIONClient, MeasureClockOffsetSCION", "net/scion auth.go, Fetcher, DeriveHostHostKey", "scionproto slayers/spao/drkey (library)"],
                        "stub": dict(STUBS_COMMON, **{"SCION daemon": "mock daemon.Connector serving DRKeys derived with the real generic.Deriver", "border routers": "scripted relay that forwards, records and tampers", "kernel UDP": "simnet"}),
                        "not_run": ["one-hop and EPIC paths (empty and SCION paths only)"]},
@@ -213,7 +213,7 @@ PROPS = {
                 "writes one TLS record per piece; (b) six NTS-protected exchanges with losses whose datagrams are decoded and re-encoded in flight (NTP header identity, accessors, NTS field kinds/alignment vs the harness's walker); "
                 "(c) round trips of generated values through the real codecs: NTP headers (8/16-bit fields cycled with the run index), CSPTP messages and both TLVs with and without server state, plain and sealed server cookies with unequal key lengths, "
                 "NTS requests/responses at every pool level, NTS-KE records; non-trivial = at least two segmented decodes; distinct = distinct event-log hash",
-        "required_probes": ["segmentation-checked", "codecs-checked", "nts-datagram-monitored", "unaligned-cookie-request", "reused-destination-decoded", "response-beyond-usual-packet-size", "concurrent-packers", "unknown-extension-field-skipped"],
+        "required_probes": ["segmentation-checked", "codecs-checked", "nts-datagram-monitored", "unaligned-cookie-request", "reused-destination-decoded", "response-beyond-usual-packet-size", "concurrent-packers", "unknown-extension-field-skipped", "tlv-encoded-into-reused-buffer"],
         "components": {"real": ["net/ntske ReadData, ExchangeMsg.Pack, cookies", "net/nts EncodePacket/DecodePacket/Process*", "net/ntp EncodePacket/DecodePacket", "net/csptp Encode*/Decode*", "core/server newNTSKEMsg", "crypto/tls"],
                        "stub": dict(STUBS_COMMON, **{"TCP": "simnet streams with explicit cut positions"})},
         "assumptions": ["the 'for all field values' quantifier of the codec clauses is covered by generation only (8/16-bit fields are swept across the runs of a batch, wider fields are random); only the segmentation clause is a schedule property",
@@ -249,7 +249,7 @@ PROPS = {
                 "clocks (success/error x before / 1ns before / at / 1ns after / after the deadline / on cancellation / never until released), "
                 "0..3 overlapping second collections, optionally a follow-up collection on the same collector; non-trivial = at least one clock; "
                 "distinct = distinct event-log hash",
-        "required_probes": ["returned-at-deadline", "returned-early", "overlap-refused", "second-round", "partial-round", "success-with-zero-timestamp", "more-than-eight-clocks", "result-at-return-instant", "second-caller-at-the-same-instant", "same-instant-first-caller-refused", "same-instant-second-caller-refused"],
+        "required_probes": ["returned-at-deadline", "returned-early", "overlap-refused", "second-round", "partial-round", "success-with-zero-timestamp", "more-than-eight-clocks", "result-at-return-instant", "second-caller-at-the-same-instant", "same-instant-first-caller-refused", "same-instant-second-caller-refused", "refused-for-its-arguments-first"],
         "components": {"real": ["core/client ReferenceClockClient.MeasureClockOffsets, collectMeasurements", "context.WithTimeout timers (raw, virtual time)"],
                        "stub": dict(STUBS_COMMON, **{"reference clocks": "scripted client.ReferenceClock implementations"})},
         "assumptions": ["goroutine quiescence is measured with runtime.NumGoroutine against a baseline taken inside the bubble"],
@@ -289,7 +289,7 @@ PROPS = {
                 "and record sequence are generated: next-protocol, AEAD (15 / other / absent), server and port records, 0..8 cookies of 0..104 bytes, error (codes 0,1,2,3,0x8000,0xffff), warning and "
                 "unknown (critical or not) records inserted anywhere, shuffled order, missing end-of-message, records after end-of-message, message written in one or many TLS records, connection cut "
                 "(FIN or reset) after 0..1500 bytes; non-trivial = at least one key exchange connection; distinct = distinct event-log hash",
-        "required_probes": ["exchange-succeeded", "exchange-failed", "keys-agree", "real-keys-agree", "destination-checked", "named-destination", "scion-client", "named-host-not-an-address", "real-server-exchange"],
+        "required_probes": ["exchange-succeeded", "exchange-failed", "keys-agree", "real-keys-agree", "destination-checked", "named-destination", "scion-client", "named-host-not-an-address", "real-server-exchange", "error-record-not-critical-or-of-odd-length"],
         "components": {"real": ["net/ntske Fetcher, dialTLS, exchangeDataTLS, ReadData, ExportKeys", "core/server handleKeyExchangeTLS, newNTSKEMsg", "core/client IPClient (NTS request path); every fourth run core/client SCIONClient and MeasureClockOffsetSCION (requests through the relay router, destination read from the SCION packet)",
                                 "timeservice.go configureIPClientNTS", "crypto/tls (client and server handshakes, exporters)", "net/nts NewRequestPacket/EncodePacket"],
                        "stub": dict(STUBS_COMMON, **{"TCP": "simnet streams (in-order bytes, segmentation, FIN/reset at a byte offset)", "scripted peer": "tls.Server with generated record stream"}),
